@@ -511,11 +511,11 @@ def run(chk):
     chk.rule("R02.5", "IAU models read TT / UT1 clock fields from normalised dates only")
     chk.rule("R02.6", "EOP fields, series/model pairing, IERS column layout, unit constants")
     chk.rule("R02.7", "rotation sequences and model wiring; constant matrices are rotations")
-    r02_1(chk)
-    r02_2(chk)
-    r02_3(chk)
-    r02_4(chk)
-    r02_5(chk)
-    r02_6(chk)
-    r02_7(chk)
+    chk.guard(r02_1, chk)
+    chk.guard(r02_2, chk)
+    chk.guard(r02_3, chk)
+    chk.guard(r02_4, chk)
+    chk.guard(r02_5, chk)
+    chk.guard(r02_6, chk)
+    chk.guard(r02_7, chk)
     chk.assume("IERS readme.finals2000A column layout; rotation sequences of Vallado (IAU-76/FK5) and IERS Conventions 2010 (CIO based)")
